@@ -105,6 +105,9 @@ type Check struct {
 	Twins []string
 	// Hidden checks are not listed (twins).
 	Hidden bool
+	// Require inspects the merged observations; a non-empty answer is a machinery failure
+	// (e.g. a hook that should have been reached never was).
+	Require func(p Params, r *Result) string
 }
 
 var registry = map[string]*Check{}
@@ -734,8 +737,9 @@ func Orchestrate(id string, p Params) int {
 			return 2
 		}
 		tm, tfail, _, ttotal, tnw, trace := runWorkers(tck, p, filepath.Join(work, "twin-"+tid))
-		if tfail {
+		if tfail || tm.Evaluations == 0 {
 			harnessFail = true
+			fmt.Fprintf(os.Stderr, "twin %s observed nothing or failed\n", tid)
 		}
 		for i := range tm.Violations {
 			tm.Violations[i].Prop = id
@@ -853,6 +857,12 @@ func Orchestrate(id string, p Params) int {
 	min := ck.MinNonTrivial
 	if min < 2 {
 		min = 2
+	}
+	if ck.Require != nil {
+		if msg := ck.Require(p, merged); msg != "" {
+			fmt.Printf("HARNESS-FAILURE property=%s: %s\n", id, msg)
+			return 2
+		}
 	}
 	if merged.Evaluations == 0 || distinct < min {
 		fmt.Printf("HARNESS-FAILURE property=%s: the monitors observed too little (evaluations=%d distinct_nontrivial=%d, need %d)\n", id, merged.Evaluations, distinct, min)
